@@ -142,6 +142,128 @@ def extract_nox_speciation(m: NumModule, path: Path):
 
 
 # ---------------------------------------------------------------------------
+# utils.py:get_thrust_cat_cruise  and the speciation steps of ei/nox.py:BFFM2_EINOx / trajectory.py:compute_EI_NOx
+# ---------------------------------------------------------------------------
+
+TMODE = {'IDLE': 'TM_IDLE', 'APPROACH': 'TM_APPROACH', 'CLIMB': 'TM_CLIMB', 'TAKEOFF': 'TM_TAKEOFF'}
+
+
+class _CalRewrite(ast.NodeTransformer):
+    def __init__(self, cal):
+        self.cal = cal
+
+    def visit_Subscript(self, n):
+        if isinstance(n.value, ast.Name) and n.value.id == self.cal and _enum_member(n.slice, 'ThrustMode'):
+            return ast.copy_location(ast.Name(id=f'cal__{_enum_member(n.slice, "ThrustMode")}', ctx=ast.Load()), n)
+        return self.generic_visit(n)
+
+
+def extract_thrust_cat(m: NumModule, path: Path):
+    mod = m._src(path)
+    fn = find_function(mod, 'get_thrust_cat_cruise')
+    args = [a.arg for a in fn.args.args]
+    if len(args) != 2:
+        raise Untranslatable('get_thrust_cat_cruise: signature')
+    ev, cal = args
+    rw = _CalRewrite(cal)
+    env = {ev: 'v_ff', 'cal__IDLE': 'ff_idle', 'cal__APPROACH': 'ff_approach', 'cal__CLIMB': 'ff_climb',
+           'cal__TAKEOFF': 'ff_takeoff'}
+    lets = []
+    body = strip_doc(fn.body)
+    for st in body[:-1]:
+        if not (isinstance(st, ast.Assign) and len(st.targets) == 1 and isinstance(st.targets[0], ast.Name)):
+            raise Untranslatable('get_thrust_cat_cruise: only simple assignments before the return')
+        node = rw.visit(copy.deepcopy(st.value))
+        ast.fix_missing_locations(node)
+        v = f'tc_{st.targets[0].id}'
+        lets.append(f'let {v} := {m.expr(node, env, "get_thrust_cat_cruise")} in')
+        env[st.targets[0].id] = v
+    ret = body[-1]
+    ok = (isinstance(ret, ast.Return) and _is_call(ret.value, 'ThrustModeArray', 1))
+    sel = ret.value.args[0] if ok else None
+    if not (ok and isinstance(sel, ast.Call) and ast.unparse(sel.func) == 'np.select' and len(sel.args) == 2
+            and [k.arg for k in sel.keywords] == ['default'] and isinstance(sel.args[0], ast.List)
+            and isinstance(sel.args[1], ast.List) and len(sel.args[0].elts) == len(sel.args[1].elts) >= 1):
+        raise Untranslatable('get_thrust_cat_cruise: must return ThrustModeArray(np.select([conds], [modes], default=mode))')
+    text = TMODE.get(_enum_member(sel.keywords[0].value, 'ThrustMode') or '')
+    if text is None:
+        raise Untranslatable('get_thrust_cat_cruise: default mode')
+    for cnd, mo in reversed(list(zip(sel.args[0].elts, sel.args[1].elts))):
+        mm = TMODE.get(_enum_member(mo, 'ThrustMode') or '')
+        if mm is None:
+            raise Untranslatable('get_thrust_cat_cruise: choice list')
+        node = rw.visit(copy.deepcopy(cnd))
+        ast.fix_missing_locations(node)
+        text = f'if {m.bexpr(node, env, "get_thrust_cat_cruise")} then {mm} else {text}'
+    m.raw('Definition x_thrust_cat (ff_idle ff_approach ff_climb ff_takeoff v_ff : T N) : tmode :=\n  '
+          + '\n  '.join(lets) + f'\n  {text}.')
+
+
+def extract_bffm2_parts(m: NumModule, nox_path: Path, traj_path: Path):
+    """Which fraction table multiplies NOx for which species, read off BFFM2_EINOx and compute_EI_NOx."""
+    fn = find_function(ast.parse(Path(nox_path).read_text()), 'BFFM2_EINOx')
+    cat_var = sp_var = None
+    props, prods, ret = {}, {}, None
+    for st in fn.body:
+        if isinstance(st, ast.Assign) and len(st.targets) == 1 and isinstance(st.targets[0], ast.Name):
+            t, v = st.targets[0].id, st.value
+            if _is_call(v, 'get_thrust_cat_cruise', 2):
+                if [ast.unparse(a) for a in v.args] != ['sls_equiv_fuel_flow', 'fuelflow_performance']:
+                    raise Untranslatable('BFFM2_EINOx: thrust category must be taken from (sls_equiv_fuel_flow, fuelflow_performance)')
+                cat_var = t
+            elif _is_call(v, 'NOx_speciation', 0):
+                sp_var = t
+            elif isinstance(v, ast.Call) and ast.unparse(v.func) == 'np.array' and len(v.args) == 1 \
+                    and isinstance(v.args[0], ast.ListComp):
+                lc = v.args[0]
+                g = lc.generators[0]
+                if len(lc.generators) == 1 and not g.ifs and isinstance(g.target, ast.Name) and isinstance(g.iter, ast.Name) \
+                        and g.iter.id == cat_var and isinstance(lc.elt, ast.Subscript) \
+                        and isinstance(lc.elt.value, ast.Attribute) and isinstance(lc.elt.value.value, ast.Name) \
+                        and lc.elt.value.value.id == sp_var and isinstance(lc.elt.slice, ast.Name) \
+                        and lc.elt.slice.id == g.target.id and lc.elt.value.attr in ('no', 'no2', 'hono'):
+                    props[t] = lc.elt.value.attr
+            elif isinstance(v, ast.BinOp) and isinstance(v.op, ast.Mult) and isinstance(v.left, ast.Name) \
+                    and isinstance(v.right, ast.Name) and v.right.id in props:
+                prods[t] = (v.left.id, props[v.right.id])
+        elif isinstance(st, ast.Return):
+            ret = st.value
+    if not (cat_var and sp_var and ret is not None and isinstance(ret, ast.Call) and not ret.args):
+        raise Untranslatable('BFFM2_EINOx: speciation steps not recognised')
+    fields = {k.arg: k.value.id for k in ret.keywords if isinstance(k.value, ast.Name)}
+    # trajectory.py:compute_EI_NOx: indices[Species.X] = bffm2_result.<field>
+    fn2 = find_function(ast.parse(Path(traj_path).read_text()), 'compute_EI_NOx')
+    spmap, res_var = {}, None
+    for n in ast.walk(fn2):
+        if isinstance(n, ast.Assign) and len(n.targets) == 1 and _is_call(n.value, 'BFFM2_EINOx') is False:
+            pass
+        if isinstance(n, ast.Assign) and len(n.targets) == 1 and isinstance(n.value, ast.Call) \
+                and isinstance(n.value.func, ast.Name) and n.value.func.id == 'BFFM2_EINOx':
+            res_var = n.targets[0].id
+            kw = {k.arg: ast.unparse(k.value) for k in n.value.keywords}
+            if kw.get('sls_equiv_fuel_flow') != 'sls_equiv_fuel_flow' or kw.get('fuelflow_performance') != 'lto.fuel_flow' \
+                    or kw.get('EI_NOx_matrix') != 'lto.EI_NOx':
+                raise Untranslatable('compute_EI_NOx: arguments of BFFM2_EINOx changed')
+    for n in ast.walk(fn2):
+        if isinstance(n, ast.Assign) and len(n.targets) == 1 and isinstance(n.targets[0], ast.Subscript) \
+                and isinstance(n.targets[0].value, ast.Name) and n.targets[0].value.id == 'indices' \
+                and _enum_member(n.targets[0].slice, 'Species') and isinstance(n.value, ast.Attribute) \
+                and isinstance(n.value.value, ast.Name) and n.value.value.id == res_var:
+            spmap[_enum_member(n.targets[0].slice, 'Species')] = n.value.attr
+    if sorted(spmap) != ['HONO', 'NO', 'NO2', 'NOx']:
+        raise Untranslatable(f'compute_EI_NOx: species written from the BFFM2 result: {sorted(spmap)}')
+    whole = fields.get(spmap['NOx'])
+    out = []
+    for s in ('NO', 'NO2', 'HONO'):
+        var = fields.get(spmap[s])
+        if var not in prods or prods[var][0] != whole:
+            raise Untranslatable(f'BFFM2_EINOx: {s} is not <NOx array> * <fraction by thrust category>')
+        out.append(f'v_nox * tm_get cat x_sp_{prods[var][1]}')
+    m.raw('(* (NO, NO2, HONO) at a point of thrust category cat with NOx index v_nox *)\n'
+          'Definition x_bffm2_parts (cat : tmode) (v_nox : T N) : T N * T N * T N :=\n  (' + ', '.join(out) + ').')
+
+
+# ---------------------------------------------------------------------------
 # the "species dictionary" statement translator (gse.py, apu.py)
 # ---------------------------------------------------------------------------
 
@@ -487,6 +609,8 @@ def extract_all(src: Path, want_meta: bool = False):
     m.constants(src / 'units.py', ['MINUTES_TO_SECONDS', 'PPM', 'KG_TO_GRAMS'])
     extract_lto_tims(m, src / 'emissions/lto.py')
     extract_nox_speciation(m, src / 'emissions/ei/nox.py')
+    extract_thrust_cat(m, src / 'emissions/utils.py')
+    extract_bffm2_parts(m, src / 'emissions/ei/nox.py', src / 'emissions/trajectory.py')
     m.constants(src / 'emissions/ei/sox.py', ['MW_SO2', 'MW_SO4', 'MW_S'])
     m.function(src / 'emissions/ei/sox.py', 'EI_SOx', attrs={'fuel': ['fuel_sulfur_content_nom', 'sulfate_yield_nom']},
                result_fields=['EI_SOx', 'EI_SO2', 'EI_SO4'])
